@@ -1,5 +1,6 @@
 INIT Init
 NEXT Next
+CONSTANT Deep = FALSE
 CONSTANT RootRegistered = FALSE
 INVARIANT DesignOk
 CHECK_DEADLOCK FALSE
